@@ -157,3 +157,38 @@ func (p *Program) axiomTerms(x *Exec) []*T {
 	p.axioms = out
 	return out
 }
+
+
+// specDefAxioms returns the defining equations of the `specdef` functions:
+// forall params. f(params) == body, with f(params) as trigger.
+func (p *Program) specDefAxioms(x *Exec) []*T {
+	if p.specDefAx != nil || len(p.SpecDefs) == 0 {
+		return p.specDefAx
+	}
+	st := &State{PC: term.True, Heap: map[string]*T{}, Alloc: term.I(FreshBase), Locks: map[string]bool{}, Ghost: map[string]Val{}}
+	for _, d := range p.SpecDefs {
+		env := x.newEnv(st, nil, nil)
+		env.pkg = p.pkgOfDefine(d)
+		sig := p.specFuns[d.Name]
+		var bnd []*T
+		for i, pa := range d.Params {
+			b := term.Bound(fmt.Sprintf("%s?%s", d.Name, pa.Name), sig.Args[i])
+			bnd = append(bnd, b)
+			switch pa.Type {
+			case "int":
+				env.vars[pa.Name] = VT{b, tyInt}
+			case "bool":
+				env.vars[pa.Name] = VT{b, tyBool}
+			default:
+				env.vars[pa.Name] = VMath{b}
+			}
+		}
+		body, ok := scalar(env.eval(d.Body))
+		if !ok {
+			x.fail("specdef %s: body is not a scalar", d.Name)
+		}
+		app := term.App(sig, bnd...)
+		p.specDefAx = append(p.specDefAx, term.ForallPat(bnd, term.Eq(app, body), [][]*T{{app}}))
+	}
+	return p.specDefAx
+}
